@@ -67,6 +67,7 @@ def run(ctx):
     common.identity_model(ctx)
     common.own_rule(ctx, ["Vertex._links", "Link._vertices"])
     h = H(ctx.src, ["edgegraph.builder.explicit", "edgegraph.traversal.helpers"])
+    common.aux_state(h, res)
     maxlen = 4 if ctx.thorough else 3
     counts = {}
     import itertools
